@@ -21,6 +21,23 @@ table against the index bincode really wrote and the variant it really read back
 namespace LinfaSpec.Serde
 open LinfaSpec.Wire
 
+/-! ## small helpers (structural recursion: evaluable by the kernel) -/
+
+/-- blank-separated words -/
+def splitWords : List Char → List Char → List (List Char)
+  | [], cur => [cur.reverse]
+  | c :: cs, cur => if c == ' ' then cur.reverse :: splitWords cs [] else splitWords cs (c :: cur)
+
+def hasFlag (flag flags : String) : Bool := (splitWords flags.toList []).contains flag.toList
+
+def nodupStrings : List String → Bool
+  | [] => true
+  | s :: r => !r.contains s && nodupStrings r
+
+/-- the field's Rust type is `Option<…>` (pseudo-flag `option` written by the translator): serde's
+`missing_field` rule reads an absent key of a self-describing format as `None` -/
+def isOptional (f : FieldInfo) : Bool := hasFlag "option" f.flags
+
 /-! ## structs -/
 
 /-- derive(Serialize), positional layout: the non-skipped fields in declaration order -/
@@ -68,23 +85,37 @@ def lookupKey (k : String) : List (Val × Val) → Option Val
   | [] => none
   | (k', v) :: r => if render k' == k then some v else lookupKey k r
 
+/-- one field of derive(Deserialize) `visit_map`: a skipped field takes its default; a live field the value
+stored under its name; an absent `Option` field reads as `None` (`nil`), any other absent field is the
+"missing field" error -/
+def fieldFromMap (dflt : FieldInfo → Val) (kvs : List (Val × Val)) (f : FieldInfo) : Option Val :=
+  if f.skip then some (dflt f) else
+    match lookupKey (keyOf f) kvs with
+    | some v => some v
+    | none => if isOptional f then some .nil else none
+
 /-- derive(Deserialize) `visit_map`: every non-skipped field is looked up by name, in any order of
-the entries; an absent key is the "missing field" error -/
+the entries; entries under other keys (unknown fields, names of skipped fields) are ignored -/
 def deFieldsMap (dflt : FieldInfo → Val) (kvs : List (Val × Val)) : List FieldInfo → Option (List Val)
   | [] => some []
   | f :: fs =>
-    match (if f.skip then some (dflt f) else lookupKey (keyOf f) kvs), deFieldsMap dflt kvs fs with
+    match fieldFromMap dflt kvs f, deFieldsMap dflt kvs fs with
     | some v, some r => some (v :: r)
     | _, _ => none
 
-/-- reading a struct back from its wire value -/
-def deStruct (dflt : FieldInfo → Val) (fs : List FieldInfo) : Val → Option (List Val)
-  | .arr xs => deFieldsSeq dflt fs xs
-  | .map kvs => deFieldsMap dflt kvs fs
-  | _ => none
-
 /-- keys of the non-skipped fields -/
 def liveKeys (fs : List FieldInfo) : List String := (liveFields fs).map keyOf
+
+/-- the keys of a message that name a live field, in message order -/
+def knownKeys (fs : List FieldInfo) (kvs : List (Val × Val)) : List String :=
+  (kvs.map fun kv => render kv.1).filter fun k => (liveKeys fs).contains k
+
+/-- reading a struct back from its wire value: positional (`visit_seq`) or by name (`visit_map`, where a
+live field's key occurring twice is the "duplicate field" error) -/
+def deStruct (dflt : FieldInfo → Val) (fs : List FieldInfo) : Val → Option (List Val)
+  | .arr xs => deFieldsSeq dflt fs xs
+  | .map kvs => if nodupStrings (knownKeys fs kvs) then deFieldsMap dflt kvs fs else none
+  | _ => none
 
 /-! ## enums in index-based formats -/
 
@@ -126,18 +157,16 @@ def skipsOf (t : TypeInfo) : List String :=
 def skipTable (ts : List TypeInfo) : List (String × List String) :=
   (ts.map fun t => (t.id, skipsOf t)).filter fun p => !p.2.isEmpty
 
-/-- blank-separated words (structural recursion: evaluable by the kernel) -/
-def splitWords : List Char → List Char → List (List Char)
-  | [], cur => [cur.reverse]
-  | c :: cs, cur => if c == ' ' then cur.reverse :: splitWords cs [] else splitWords cs (c :: cur)
-
-def hasFlag (flag flags : String) : Bool := (splitWords flags.toList []).contains flag.toList
-
 /-- members whose presence on the wire depends on the value or on the direction: `skip_serializing_if`,
-`skip_serializing` / `skip_deserializing` alone, `default`, `flatten` — none of them is used by linfa today -/
+`skip_serializing` / `skip_deserializing` alone, `default`, `flatten`, and every attribute under which the wire keys
+are not the Rust member names or the layout is not the derive default (`rename`, `rename_all`, `transparent`,
+`deny_unknown_fields`, `remote`, tagging options; the translator folds variant-level attributes into the
+container's) — none of them is used by linfa today -/
 def conditionalFlags : List String :=
   ["skip_serializing_if", "skip_serializing", "skip_deserializing", "default", "flatten", "rename", "alias",
-   "with", "serialize_with", "deserialize_with", "getter", "from", "try_from", "into", "untagged", "tag", "content", "other"]
+   "with", "serialize_with", "deserialize_with", "getter", "from", "try_from", "into", "untagged", "tag", "content", "other",
+   "rename_all", "rename_all_fields", "transparent", "deny_unknown_fields", "remote", "expecting",
+   "field_identifier", "variant_identifier", "borrow"]
 
 def flaggedOf (t : TypeInfo) : List String :=
   let bad (owner flags : String) : List String :=
@@ -147,9 +176,5 @@ def flaggedOf (t : TypeInfo) : List String :=
 
 def flagTable (ts : List TypeInfo) : List (String × List String) :=
   (ts.map fun t => (t.id, flaggedOf t)).filter fun p => !p.2.isEmpty
-
-def nodupStrings : List String → Bool
-  | [] => true
-  | s :: r => !r.contains s && nodupStrings r
 
 end LinfaSpec.Serde
